@@ -19,8 +19,9 @@ class Scene:
         return pe is not None and pe.conn is not None and \
             not pe.conn.severed and not pe.transport_closed
 
-    def open(self, p, server='s', settle=True):
-        pe = self.w.add_peer(server)
+    def open(self, p, server='s', settle=True, transport='websocket'):
+        pe = self.w.add_peer(server, transport=transport) \
+            if transport != 'websocket' else self.w.add_peer(server)
         pe.label = p
         pe.open()
         self.peers[p] = pe
